@@ -345,7 +345,7 @@ def c15_3(ctx: Ctx) -> RuleResult:
         cname = run.cls.name if run.cls else run.name
         aborts = []
         for n in nodes_in(run, ast.If):
-            t = ctx.X.at(run, n.test)
+            t = ctx.X.value_at(run, n.test)
             is_user = any(s[0] == "cmp" and s[1] == "==" and (("global", "ropt.enums.OptimizerExitCode.USER_ABORT") in (s[2], s[3])) for s in subterms(t))
             calls_abort = any(isinstance(c, ast.Call) and isinstance(c.func, ast.Attribute) and c.func.attr == "abort" for s in n.body for c in ast.walk(s))
             if is_user and calls_abort:
@@ -366,7 +366,7 @@ def c15_3(ctx: Ctx) -> RuleResult:
         res.add(run, aborts[0], "every normal return after the work passes the USER_ABORT test that latches the plan", ok,
                 "" if ok else "the step can return without testing for USER_ABORT", wit, construct=f"{cname}: latch on USER_ABORT")
         rets = [r for r in nodes_in(run, ast.Return) if r.value is not None]
-        tested = {show(x) for a in aborts for s in subterms(ctx.X.at(run, a.test)) if s[0] == "cmp" for x in (s[2], s[3]) if x[0] != "global"}
+        tested = {show(x) for a in aborts for s in subterms(ctx.X.value_at(run, a.test)) if s[0] == "cmp" for x in (s[2], s[3]) if x[0] != "global"}
         returned = {show(ctx.X.at(run, r.value)) for r in rets}
         res.add(run, aborts[0], "the exit code tested for USER_ABORT is the exit code the step returns", returned <= tested or not returned,
                 "" if returned <= tested else f"tests {sorted(tested)} but returns {sorted(returned)}", construct=f"{cname}: tested code is returned code")
@@ -390,7 +390,7 @@ def c15_3(ctx: Ctx) -> RuleResult:
         found = False
         for n in nodes_in(cb, ast.If):
             if any(isinstance(x, ast.Raise) for s in n.body for x in ast.walk(s)):
-                t = ctx.X.at(cb, n.test)
+                t = ctx.X.value_at(cb, n.test)
                 # the flag returned by the nested optimizer
                 if any(s[0] == "item" and s[2] == 1 for s in subterms(t)) or (t[0] == "item" and t[2] == 1):
                     rs_ = [x for s in n.body for x in ast.walk(s) if isinstance(x, ast.Raise)]
